@@ -297,7 +297,7 @@ func first(a, _ []byte) []byte { return a }
 //@   ensures[absent_iff_nil] (result == nil) == (lookP(*ref, b) == nil)
 //@   ensures[slot_holds_child] implies(result != nil, (*result).pointer == lookP(*ref, b) && (*result).tag == lookT(*ref, b) && result.obj == (*ref).pointer)
 //@   ensures[child_typed] implies(result != nil, okRef(*result) && (*result).pointer != (*ref).pointer)
-//@   ensures[pure] frame()
+//@   assigns nothing
 
 // addChild: requires the byte to be absent; ensures the whole view (all 256
 // bytes) is the old view updated at b, header and class invariant preserved,
